@@ -165,6 +165,7 @@ static void history(int steps, int containers_only) {
   fprintf(vh_out, "{\"e\":\"Reset\"}\n");
   for (int st = 0; st < steps; st++) {
     int k = (int)vh_randn(containers_only ? 12 : 22);
+    if (containers_only && vh_randn(12) == 0) k = 17; /* containers that come out of the decoder are extended and indexed like any other */
     int fs = nfree_slots();
     if (fs < 4 && k < 6) k = 20; /* table nearly full: release something instead of creating */
     switch (k) {
